@@ -328,7 +328,7 @@ func RunHealthy(d *fw.Driver, res *fw.Result, seed int64, thorough bool) error {
 	if thorough {
 		rounds = 60
 	}
-	for round := 0; round < rounds; round++ {
+	for round := 0; round < rounds && !res.Enough(); round++ {
 		e, err := scen.NewEnv(seed+int64(round)*13, 2)
 		if err != nil {
 			return err
@@ -453,6 +453,9 @@ func RunTermination(d *fw.Driver, res *fw.Result, seed int64, thorough bool) err
 		for _, cause := range causes {
 			for _, instant := range instants {
 				for _, reconnect := range []bool{true, false} {
+					if res.Enough() {
+						return nil
+					}
 					if err := termOne(d, res, r, seed, cause, instant, reconnect); err != nil {
 						return err
 					}
